@@ -5,7 +5,36 @@ import GopatchModel.Walk
 import GopatchModel.MetaP
 import GopatchModel.Finder
 import GopatchModel.Intervals
+import GopatchModel.Spec.RefFile
 open Gopatch
+
+def decodeTag : Sx → Tag
+  | .atom "pos" => .pos
+  | .atom "str" => .str
+  | .atom "int" => .int
+  | .atom "bool" => .bool
+  | .list [.atom "ptr", t] => .ptr t.asStr
+  | .list [.atom "iface", t] => .iface t.asStr
+  | .list [.atom "slice", t] => .slice t.asStr
+  | _ => .str
+
+/-- `(schema (struct "ast.CallExpr" tag ...) ... (elem "ast.Expr" tag) ...)` as dumped by the harness from go/ast -/
+def decodeSchema (x : Sx) : Option Schema :=
+  match x with
+  | .list (.atom "schema" :: items) =>
+      let structs := items.filterMap (fun i => match i with
+        | .list (.atom "struct" :: n :: tags) => some (n.asStr, tags.map decodeTag)
+        | _ => none)
+      let elems := items.filterMap (fun i => match i with
+        | .list [.atom "elem", n, t] => some (n.asStr, decodeTag t)
+        | _ => none)
+      some { fields := fun t => structs.lookup t, elem := fun e => (elems.lookup e).getD .str }
+  | _ => none
+
+/-- nodes that are instances of the change's pattern but that the engine's matcher rejects; `none` when the
+pattern has so many elisions that enumerating every choice is not attempted -/
+def missedCount (c : Change) (f : FileM) : Option Nat :=
+  if (collectDots c.minus.node).length > 4 then none else some (missedNodes c f).length
 
 def errStr : Err → String
   | .err m => "(err \"" ++ escapeStr m ++ "\")"
@@ -23,26 +52,34 @@ def touchedDecls (f : FileM) (sites : List Site) : List Nat :=
           (match nonImp[j]? with | some d => hasId s.parent d | none => false)))
   | _ => []
 
-/-- per-change trace of the CLI-style loop, and the declarations containing sites -/
-def runChanges : List Change → FileM → List String → List Nat → FileM × List String × Option Err × List Nat
-  | [], f, tr, td => (f, tr, none, td)
-  | c :: cs, f, tr, td =>
+/-- per-change trace of the CLI-style loop, the declarations containing sites, and the missed instances -/
+def runChanges : List Change → FileM → List String → List Nat → Option Nat → FileM × List String × Option Err × List Nat × Option Nat
+  | [], f, tr, td, ms => (f, tr, none, td, ms)
+  | c :: cs, f, tr, td, ms =>
       let td' := match fileMatch c f with
         | some (_, sites) => td ++ touchedDecls f sites
         | none => td
+      let ms' := match ms, missedCount c f with
+        | some a, some b => some (a + b)
+        | _, _ => none
       match applyChange c f with
-      | .noMatch => runChanges cs f (tr ++ ["n"]) td
-      | .ok f' k => runChanges cs f' (tr ++ [s!"k{k}"]) td'
-      | .fail e => (f, tr ++ ["e"], some e, td')
+      | .noMatch => runChanges cs f (tr ++ ["n"]) td ms'
+      | .ok f' k => runChanges cs f' (tr ++ [s!"k{k}"]) td' ms'
+      | .fail e => (f, tr ++ ["e"], some e, td', ms')
 
-def handleEngine (id : String) (xs : List Sx) : String :=
+def handleEngine (sc : Option Schema) (id : String) (xs : List Sx) : String :=
   let changes := (Sx.field xs "changes").map decodeChange
   let file := decodeFile (Sx.field xs "file")
-  let (f, tr, e, td) := runChanges changes file [] []
+  let (f, tr, e, td, ms) := runChanges changes file [] [] (some 0)
   let tds := " ".intercalate (td.eraseDups.map toString)
+  let typed := match sc with
+    | some sc => if wtv sc file.tree && nf file.tree then "1" else "0"
+    | none => "?"
+  let mss := match ms with | some k => toString k | none => "?"
+  let extra := s!"(touched {tds}) (missed {mss}) (typed {typed})"
   match e with
-  | some e => s!"(res {id} (trace {" ".intercalate tr}) (touched {tds}) {errStr e})"
-  | none => s!"(res {id} (trace {" ".intercalate tr}) (touched {tds}) (ok) {canonFile f})"
+  | some e => s!"(res {id} (trace {" ".intercalate tr}) {extra} {errStr e})"
+  | none => s!"(res {id} (trace {" ".intercalate tr}) {extra} (ok) {canonFile f})"
 
 def q (s : String) : String := "\"" ++ escapeStr s ++ "\""
 
@@ -206,9 +243,9 @@ def handleComments (id : String) (xs : List Sx) : String :=
   let texts := (survivors.map (·.text)).foldr insertStr []
   s!"(res {id} (survivors{String.join (texts.map (fun t => " " ++ q t))}))"
 
-def handleLine (line : String) : String :=
+def handleLine (sc : Option Schema) (line : String) : String :=
   match Sx.ofString line with
-  | .list (.atom "case" :: id :: .atom "engine" :: xs) => handleEngine id.asStr xs
+  | .list (.atom "case" :: id :: .atom "engine" :: xs) => handleEngine sc id.asStr xs
   | .list (.atom "case" :: id :: .atom "cli" :: xs) => handleCli id.asStr xs
   | .list (.atom "case" :: id :: .atom "generated" :: xs) => handleGenerated id.asStr xs
   | .list (.atom "case" :: id :: .atom "walk" :: xs) => handleWalk id.asStr xs
@@ -218,16 +255,21 @@ def handleLine (line : String) : String :=
   | .list (.atom "echo" :: [v]) => canonV (decodeV v)
   | _ => "(bad-op)"
 
-partial def loop (h : IO.FS.Stream) (out : IO.FS.Stream) : IO Unit := do
+partial def loop (sc : Option Schema) (h : IO.FS.Stream) (out : IO.FS.Stream) : IO Unit := do
   let line ← h.getLine
   if line.isEmpty then return ()
   let l := line.trimAscii.toString
   if !l.isEmpty then
-    out.putStrLn (handleLine l)
-  loop h out
+    out.putStrLn (handleLine sc l)
+  loop sc h out
 
 def main : IO Unit := do
   let stdin ← IO.getStdin
   let stdout ← IO.getStdout
-  loop stdin stdout
+  -- the schema of go/ast, dumped by the harness by reflection on every run (VERIF_SCHEMA names the file)
+  let sc ← (do
+    match (← IO.getEnv "VERIF_SCHEMA") with
+    | some p => (do let t ← IO.FS.readFile p; pure (decodeSchema (Sx.ofString t.trimAscii.toString))) <|> pure none
+    | none => pure none)
+  loop sc stdin stdout
   stdout.flush
